@@ -154,7 +154,7 @@ PROPS = {
   # decisions are compared (exact texts, offsets and views are compared by C02–C04, C11–C13).
   ops={
    "parse": dict(fields=[_decision("d1"), _decision("d5"), _decision("d8")],
-                 spec=[_door_vs_spec("d%d" % i) for i in range(1, 9)], laws=["law_grammar"]),
+                 spec=[_door_vs_spec("d%d" % i) for i in range(1, 9)], laws=["law_grammar", "law_align"]),
    "deser": dict(fields=[_decision("own"), _decision("bor")], laws=["law_refuse"]),
    "tok_new": dict(fields=[], laws=["law_valid"]),
    "from_encoded": dict(fields=[_okerr("r")], laws=["law_exact", "law_verbatim", "law_align"]),
